@@ -163,8 +163,9 @@ class Run:
             "wall_s": round(wall, 2),
             "violations": len(self.violations),
         }
-        os.makedirs(os.path.join(env.VERIF, "evidence"), exist_ok=True)
-        with open(os.path.join(env.VERIF, "evidence", f"{self.pid}.json"), "w") as f:
+        evdir = os.environ.get("VERIF_EVIDENCE_DIR") or os.path.join(env.VERIF, "evidence")
+        os.makedirs(evdir, exist_ok=True)
+        with open(os.path.join(evdir, f"{self.pid}.json"), "w") as f:
             json.dump(ev, f, indent=1, default=str)
         print(f"{self.pid} [{self.tier}] status={status} evaluations={self.evaluations} nontrivial={len(self.nontrivial)} "
               f"known={sum(self.kf_hits.values())} violations={len(self.violations)} inconclusive={self.inconclusive} wall={wall:.1f}s", flush=True)
